@@ -2,6 +2,7 @@
 mod common;
 mod run;
 mod c13;
+mod c18;
 
 fn main() {
     // Silence the default panic printer: panics are observations here, reported as data.
@@ -14,6 +15,13 @@ fn main() {
     match sub {
         "run" => run::main(&rest),
         "c13" => c13::main(&rest),
+        "c18" => c18::main(&rest),
+        "c18one" => {
+            let spec = rest.first().cloned().unwrap_or_default();
+            let imp = rest.get(1).cloned().unwrap_or_default();
+            let base = if imp == "\0none" { None } else { Some(tsrun::ModulePath::new(imp)) };
+            println!("{}", serde_json::json!({"got": tsrun::ModulePath::resolve(&spec, base.as_ref()).as_str()}));
+        }
         _ => {
             eprintln!("usage: tvh <run|...> [args]");
             std::process::exit(2);
